@@ -1,5 +1,6 @@
 """C06 - node ids are never handed out twice (E1 on real persistence files, model_checking)."""
 import collections
+import itertools
 
 from .. import alpha, e1check, explore
 from ..monitors import GatewayMonitor
@@ -80,6 +81,7 @@ def run(tier):
         explore.run(spec, report, tier, 8, 2000000, 1200)
     e1check.confirm_all(spec, report)
     part_b = run_part_b(report, tier)
+    part_d = run_part_d(report, tier)
     cov_sync = dict(report.coverage)
     sub = Report(PROP, "model_checking", tier)
     aspec = C06AsyncSpec()
@@ -93,9 +95,10 @@ def run(tier):
     cov["asyncio_restarts"] = {"states": sub.coverage["states"], "transitions": sub.coverage["transitions"], "completed_depth": sub.coverage["completed_depth"], "witnesses": sub.coverage["witnesses"],
                                "rule": "asyncio gateway on the virtual loop: id requests, other traffic, timers, completion of executor job 0 or 1 (load and save run in the executor; every completion order), stop + new gateway on the same file (up to 3 lives); history variable = ids handed out"}
     cov["rule"] = RULE
-    cov["evaluations"] = cov["transitions"] + part_b["schedules"]
+    cov["evaluations"] = cov["transitions"] + part_b["schedules"] + part_d["schedules"] + part_d["asyncio_runner_runs"]
     cov["distinct_nontrivial"] = cov["states"]
     cov["stop_vs_id_request"] = part_b
+    cov["cli_runner_restart"] = part_d
     report.assumptions = list(ASSUMPTIONS)
     return report.finish()
 
@@ -104,6 +107,22 @@ def replay(data):
     rep = data["replay"]
     if rep.get("kind") == "history" and rep.get("cfg", {}).get("flavour") == "async":
         return e1check.replay_history(C06AsyncSpec(), data)
+    if rep.get("kind") == "cli-async":
+        earlier, handed, errors, _ = _d_async_one(rep["fmt"], rep["order"])
+        print(f"ids of life 1: {earlier}; handed out after the restart through the asyncio runner: {handed}; errors: {errors}")
+        if errors or any(i in earlier for i in handed):
+            print(f"VIOLATION property={PROP} replay=<replayed>")
+            return 1
+        print("did not reproduce on the current tree")
+        return 0
+    if rep.get("kind") == "schedule" and rep["fmt"].endswith("/cli"):
+        sched, earlier, handed = _d_run_one(rep["fmt"].split("/")[0], list(rep["choices"]))
+        print(f"ids of life 1: {earlier}; handed out after the restart through the runner: {handed}")
+        if any(i in earlier for i in handed):
+            print(f"VIOLATION property={PROP} replay=<replayed>")
+            return 1
+        print("did not reproduce on the current tree")
+        return 0
     if rep.get("kind") == "schedule":
         sched, handed, restored = _b_run_one(rep["fmt"], list(rep["choices"]))
         print(f"ids handed out on the open connection: {handed}; nodes restored after restart: {restored}")
@@ -274,6 +293,236 @@ def _b_add(report, found):
 
     for sig, (msg, choices, npre, fmt) in found.items():
         report.add(Violation(PROP, sig, f"{msg} ({fmt}, schedule with {npre} preemption(s))", {"kind": "schedule", "check": PROP, "fmt": fmt, "choices": choices}))
+
+
+# -- part (d): restart through the command-line runner, with traffic waiting on the link (E2 / E4) --------
+# mysensors.cli.helper.run_gateway / handle_async_gateway are how the pymysensors command line starts a gateway.
+# The link may already have an id request waiting when the connection is made; the ids of the previous life are
+# in the file. Threads: the runner (main), the connect thread, a reader delivering the waiting line, the pump.
+
+
+def _d_run_one(fmt, prefix):
+    import os
+    import shutil
+    import types
+
+    from .. import sched as S
+    from ..common import scratch_root
+    from .c16 import Conn
+
+    import mysensors.cli.helper as helper
+    from mysensors.gateway_serial import SerialGateway
+
+    S.install_library_shims()
+    del S.TIMERS[:]
+    d = os.path.join(scratch_root(), f"verif-pymys-{os.getpid()}", "c06d")
+    shutil.rmtree(d, ignore_errors=True)
+    os.makedirs(d)
+    path = os.path.join(d, f"p.{fmt}")
+    # life 1: two ids handed out, clean save
+    gw1 = SerialGateway("/dev/verif", persistence=True, persistence_file=path, protocol_version="2.2")
+    earlier = []
+    for _ in range(2):
+        reply = gw1.logic("255;255;3;0;3;")
+        earlier.append(int(reply.strip().split(";")[5]))
+    gw1.tasks.persistence.save_sensors()
+    # life 2 through the runner
+    sched = S.Scheduler(prefix, trace_files=("mysensors/task.py", "mysensors/cli/helper.py"), horizon=4000)
+    log = sched.log
+    gw = SerialGateway("/dev/verif", persistence=True, persistence_file=path, protocol_version="2.2")
+    S.PUMP_TASKS[0] = gw.tasks
+    state = {"reader": None}
+
+    def fake_connect(transport):
+        transport.protocol.connection_made(Conn(log, "c0"))
+
+        def reader():
+            transport.protocol.handle_line("255;255;3;0;3;")
+
+        state["reader"] = sched.spawn(reader, "reader")
+
+    gw.tasks.transport._connect = fake_connect
+
+    def runner_sleep(_):
+        # the runner idles until Ctrl-C: here until the waiting line was delivered and worked off
+        sched.block(lambda: state["reader"] is not None and not state["reader"].alive and not gw.tasks.queue, ("idle",))
+        raise KeyboardInterrupt
+
+    real_time = helper.time
+    helper.time = types.SimpleNamespace(sleep=runner_sleep)
+
+    def body():
+        try:
+            helper.run_gateway(gw)
+        except Exception as exc:  # pylint: disable=broad-except
+            log.append(("runner-raised", type(exc).__name__, str(exc)[:100]))
+        gw.tasks._stop_event.set()
+        sched.block(lambda: all(not t.alive for t in sched.threads[1:]), ("join-rest",))
+
+    try:
+        sched.run(body)
+    finally:
+        helper.time = real_time
+    handed = []
+    for e in log:
+        if e[0] == "write":
+            parts = e[2].decode().strip().split(";")
+            if len(parts) == 6 and parts[2] == "3" and parts[4] == "4":
+                handed.append(int(parts[5]))
+    shutil.rmtree(d, ignore_errors=True)
+    return sched, earlier, handed
+
+
+def _d_part(args):
+    from .. import sched as S
+
+    fmt, bound, deadline = args
+    res = S.Result()
+    found = {}
+    outcomes = collections.Counter()
+
+    def make(prefix):
+        sched, earlier, handed = _d_run_one(fmt, prefix)
+        sched.result = (earlier, handed)
+        return sched
+
+    def check(sched):
+        earlier, handed = sched.result
+        outcomes[(tuple(earlier), tuple(handed))] += 1
+        for pid in handed:
+            if pid in earlier or not 1 <= pid <= 254 or handed.count(pid) > 1:
+                npre = S.preemptions(sched.points, len(sched.points))
+                sig = "cli-runner-restart|id-handed-out-twice"
+                if sig not in found or npre < found[sig][2]:
+                    found[sig] = (f"life 1 handed out {earlier} and saved; after a restart through cli.helper.run_gateway an id request waiting on the link was answered with id {pid}", list(sched.choices), npre, fmt + "/cli")
+        for e in sched.log:
+            if e[0] in ("pump-raised", "runner-raised"):
+                found.setdefault(f"cli-runner-restart|{e[0]}|{e[1]}", (f"{e[0]}: {e[1]}: {e[2]}", list(sched.choices), 0, fmt + "/cli"))
+
+    complete, _ = S.explore(make, check, bound, res, deadline=deadline)
+    return fmt, complete, res.executions, res.points, found, dict((str(k), v) for k, v in outcomes.items())
+
+
+def _d_async_one(fmt, order):
+    """asyncio runner: mysensors.cli.helper.handle_async_gateway on the virtual loop. The connection attempt is answered
+    at once with a link that has an id request waiting; the environment choices are the order in which the pending
+    events are taken - 'L' deliver the waiting line (enabled once the link is up), 'X' complete the oldest executor
+    job (load / save). `order` is a string over {L, X}; events that are not enabled are skipped, the rest is FIFO."""
+    import os
+    import shutil
+
+    from .. import vloop
+    from ..common import scratch_root
+
+    import mysensors.cli.helper as helper
+    from mysensors.gateway_serial import AsyncSerialGateway, SerialGateway
+
+    d = os.path.join(scratch_root(), f"verif-pymys-{os.getpid()}", "c06da")
+    shutil.rmtree(d, ignore_errors=True)
+    os.makedirs(d)
+    path = os.path.join(d, f"p.{fmt}")
+    gw1 = SerialGateway("/dev/verif", persistence=True, persistence_file=path, protocol_version="2.2")
+    earlier = [int(gw1.logic("255;255;3;0;3;").strip().split(";")[5]) for _ in range(2)]
+    gw1.tasks.persistence.save_sensors()
+    handed, errors = [], []
+    loop = vloop.VLoop()
+    box = {}
+
+    class T:  # minimal asyncio transport
+        def write(self, data):
+            parts = data.decode().strip().split(";")
+            if len(parts) == 6 and parts[2] == "3" and parts[4] == "4":
+                handed.append(int(parts[5]))
+
+        def close(self):
+            pass
+
+        def is_closing(self):
+            return False
+
+    async def factory():
+        gw = AsyncSerialGateway("/dev/verif", persistence=True, persistence_file=path, protocol_version="2.2")
+
+        async def fake_connect(transport):
+            transport.protocol.connection_made(T())
+            box["proto"] = transport.protocol
+
+        gw.tasks.transport._connect = fake_connect
+        box["gw"] = gw
+        return gw, None
+
+    try:
+        task = loop.start(helper.handle_async_gateway(factory))
+        delivered = False
+        taken = []
+        for ev in list(order) + ["X"] * 4 + ["L"] + ["X"] * 4:
+            if ev == "L" and not delivered and "proto" in box:
+                loop.call(box["proto"].handle_line, "255;255;3;0;3;")
+                loop.run_ready()
+                delivered = True
+                taken.append("L")
+            elif ev == "X" and loop.executor_jobs:
+                loop.complete_executor(0)
+                taken.append("X")
+        # Ctrl-C: asyncio.run cancels the main task, the runner stops the gateway
+        loop.call(task.cancel)
+        loop.run_ready()
+        guard = 0
+        while not task.done() and loop.executor_jobs and guard < 6:
+            loop.complete_executor(0)
+            guard += 1
+        if not task.done():
+            errors.append(("RunnerStuck", "handle_async_gateway did not finish after cancellation"))
+        elif not task.cancelled() and task.exception() is not None:
+            errors.append((type(task.exception()).__name__, str(task.exception())[:100]))
+        for ctx in loop.handler_errors:
+            errors.append(("LoopError", str(ctx.get("message"))[:100]))
+        if not delivered:
+            errors.append(("HarnessNoLink", "the runner never connected"))
+    finally:
+        loop.close()
+        shutil.rmtree(d, ignore_errors=True)
+    return earlier, handed, errors, "".join(taken)
+
+
+ASYNC_CLI_ORDERS = ["".join(t) for n in range(0, 4) for t in itertools.product("LX", repeat=n)]
+
+
+def run_part_d(report, tier):
+    import multiprocessing
+    import time
+
+    from ..common import NPROC, Violation
+
+    bound = 1 if tier == "quick" else 2
+    deadline = time.time() + (200 if tier == "quick" else 600)
+    ctx = multiprocessing.get_context("fork")
+    total = collections.Counter()
+    outcomes = collections.Counter()
+    complete_all = True
+    with ctx.Pool(min(NPROC, 2)) as pool:
+        for fmt, complete, execs, points, found, outs in pool.imap(_d_part, [(f, bound, deadline) for f in ("json", "pickle")]):
+            total["executions"] += execs
+            total["points"] += points
+            outcomes.update(outs)
+            complete_all = complete_all and complete
+            _b_add(report, found)
+    async_runs = 0
+    for fmt in ("json", "pickle"):
+        for order in ASYNC_CLI_ORDERS:
+            earlier, handed, errors, taken = _d_async_one(fmt, order)
+            async_runs += 1
+            outcomes[str((tuple(earlier), tuple(handed), "async", taken))] += 1
+            for pid in handed:
+                if pid in earlier or not 1 <= pid <= 254:
+                    report.add(Violation(PROP, "cli-runner-restart|async|id-handed-out-twice", f"life 1 handed out {earlier}; after a restart through cli.helper.handle_async_gateway the waiting id request was answered with id {pid} ({fmt})", {"kind": "cli-async", "check": PROP, "fmt": fmt, "order": order}))
+            for name, text in errors:
+                report.add(Violation(PROP, f"cli-runner-restart|async|runner-raised|{name}", f"{name}: {text} ({fmt})", {"kind": "cli-async", "check": PROP, "fmt": fmt, "order": order}))
+            if not handed and not errors:
+                report.add(Violation(PROP, "cli-runner-restart|async|harness-no-reply", "the waiting id request got no reply in the asyncio runner harness", {"kind": "cli-async", "check": PROP, "fmt": fmt, "order": order}))
+    return {"preemption_bound": bound, "schedules": total["executions"], "scheduling_decisions": total["points"], "complete": complete_all, "asyncio_runner_runs": async_runs,
+            "distinct_outcomes(ids of life 1, ids handed out in life 2)": dict(outcomes),
+            "rule": "life 1 hands out two ids and saves; life 2 = mysensors.cli.helper.run_gateway on the same file with an id request waiting on the link when the connection is made: runner + connect thread + reader + pump, all schedules up to the preemption bound at line granularity of task.py and cli/helper.py; asyncio runner (handle_async_gateway) on the virtual loop: every order of {deliver the waiting line, complete the oldest executor job} up to length 3 then FIFO, Ctrl-C (task cancellation), both formats. Every id handed out in life 2 must differ from life 1's"}
 
 
 # -- part (c): asyncio gateway, restarts with every completion order of the executor jobs (E4) ---------
